@@ -84,4 +84,92 @@ theorem shiftPart_absolute (c r : Nat) (dCol dRow : Int)
   simp only [hfilt, decode_canonical c r hc1 hc2 hr1 hr2, hfirst, hlast]
   simp
 
+theorem firstIdx_map_ne_zero (o : Option Nat) : ((o.map (· + 1)) == some 0) = false := by
+  cases o <;> simp
+
+/-- `A$1`: the column is translated, the row kept -/
+theorem shiftPart_rowAbs (c r : Nat) (dCol dRow : Int)
+    (hc1 : 1 ≤ c) (hc2 : c ≤ Facts.MaxColumns) (hr1 : 1 ≤ r) (hr2 : r ≤ Facts.TotalRows)
+    (hc1' : 1 ≤ (c : Int) + dCol) (hc2' : (c : Int) + dCol ≤ Facts.MaxColumns) :
+    Impl.shiftPart dCol dRow (Spec.render (.cell ⟨false, c⟩ ⟨true, r⟩)) =
+      Spec.render (.cell ⟨false, ((c : Int) + dCol).toNat⟩ ⟨true, r⟩) := by
+  have hL := numToName_letters c
+  have hD := itoa_digits r
+  obtain ⟨l, ls, hl, hll⟩ := numToName_cons hc1
+  have htext : Spec.render (.cell ⟨false, c⟩ ⟨true, r⟩) = numToName c ++ '$' :: itoa r := by
+    simp [Spec.render, Spec.renderCol, Spec.renderRow, Spec.dollarIf]
+  have hfilt : (numToName c ++ '$' :: itoa r).filter (fun ch => !isDollar ch) = numToName c ++ itoa r := by
+    have d : isDollar '$' = true := by decide
+    simp [List.filter_append, List.filter, d, filter_letters _ hL, filter_digits _ hD]
+  have hfirst : (firstIdx isDollar (numToName c ++ '$' :: itoa r) == some 0) = false := by
+    rw [hl]
+    simp only [List.cons_append, firstIdx, isLetter_not_dollar hll, Bool.false_eq_true, if_false]
+    exact firstIdx_map_ne_zero _
+  have hlast : lastIdx isDollar (numToName c ++ '$' :: itoa r) = some (numToName c).length := by
+    have e : numToName c ++ '$' :: itoa r = (numToName c ++ ['$']) ++ itoa r := by simp
+    rw [e, lastIdx_append_none _ _ _ (fun x hx => isDigit_not_dollar (hD x hx)), lastIdx_snoc _ _ _ (by decide)]
+  have hlen : 0 < (numToName c).length := by rw [hl]; simp
+  rw [htext]
+  unfold Impl.shiftPart
+  simp only [hfilt, decode_canonical c r hc1 hc2 hr1 hr2, hfirst, hlast, hlen, decide_true]
+  simp [Impl.okOr, colName_ofInt hc1' hc2', itoaInt_nat (show (1 : Int) ≤ (r : Int) by omega),
+    Spec.render, Spec.renderCol, Spec.renderRow, Spec.dollarIf]
+
+/-- `$A1`: the column is kept, the row translated -/
+theorem shiftPart_colAbs (c r : Nat) (dCol dRow : Int)
+    (hc1 : 1 ≤ c) (hc2 : c ≤ Facts.MaxColumns) (hr1 : 1 ≤ r) (hr2 : r ≤ Facts.TotalRows)
+    (hr1' : 1 ≤ (r : Int) + dRow) :
+    Impl.shiftPart dCol dRow (Spec.render (.cell ⟨true, c⟩ ⟨false, r⟩)) =
+      Spec.render (.cell ⟨true, c⟩ ⟨false, ((r : Int) + dRow).toNat⟩) := by
+  have hL := numToName_letters c
+  have hD := itoa_digits r
+  have htext : Spec.render (.cell ⟨true, c⟩ ⟨false, r⟩) = '$' :: (numToName c ++ itoa r) := by
+    simp [Spec.render, Spec.renderCol, Spec.renderRow, Spec.dollarIf]
+  have hnd : ∀ x ∈ numToName c ++ itoa r, isDollar x = false := by
+    intro x hx
+    rcases List.mem_append.mp hx with h | h
+    · exact isLetter_not_dollar (hL x h)
+    · exact isDigit_not_dollar (hD x h)
+  have hfilt : ('$' :: (numToName c ++ itoa r)).filter (fun ch => !isDollar ch) = numToName c ++ itoa r := by
+    have d : isDollar '$' = true := by decide
+    simp only [List.filter, d, Bool.not_true]
+    rw [List.filter_eq_self]; intro x hx; simp [hnd x hx]
+  have hfirst : firstIdx isDollar ('$' :: (numToName c ++ itoa r)) = some 0 := by
+    have d : isDollar '$' = true := by decide
+    simp [firstIdx, d]
+  have hlast : lastIdx isDollar ('$' :: (numToName c ++ itoa r)) = some 0 := by
+    have d : isDollar '$' = true := by decide
+    simp [lastIdx, lastIdx_none_of hnd, d]
+  rw [htext]
+  unfold Impl.shiftPart
+  simp only [hfilt, decode_canonical c r hc1 hc2 hr1 hr2, hfirst, hlast]
+  simp [Impl.okOr, colName_ofInt (show (1 : Int) ≤ (c : Int) by omega) (show (c : Int) ≤ Facts.MaxColumns by omega),
+    itoaInt_nat hr1', Spec.render, Spec.renderCol, Spec.renderRow, Spec.dollarIf]
+
+/-! ### data-validation formulas: the XML escaping round trip -/
+
+theorem unescapeXML_cons_ne (c : Char) (cs : Str) (h : c ≠ '&') :
+    Impl.unescapeXML (c :: cs) = c :: Impl.unescapeXML cs := by
+  rw [Impl.unescapeXML.eq_def]
+  split
+  · contradiction
+  · rename_i heq; simp only [List.cons.injEq] at heq; exact absurd heq.1 h
+  · rename_i heq; simp only [List.cons.injEq] at heq; exact absurd heq.1 h
+  · rename_i heq; simp only [List.cons.injEq] at heq; exact absurd heq.1 h
+  · rename_i heq; simp only [List.cons.injEq] at heq; obtain ⟨rfl, rfl⟩ := heq; rfl
+
+theorem unescape_escape (s : Str) : Impl.unescapeXML (Impl.escapeXML s) = s := by
+  induction s with
+  | nil => rfl
+  | cons c cs ih =>
+    unfold Impl.escapeXML
+    by_cases h1 : c = '&'
+    · subst h1; simp [Impl.unescapeXML, ih]
+    · by_cases h2 : c = '<'
+      · subst h2; simp [Impl.unescapeXML, ih]
+      · by_cases h3 : c = '>'
+        · subst h3; simp [Impl.unescapeXML, ih]
+        · simp only [h1, h2, h3, if_false]
+          rw [unescapeXML_cons_ne c _ h1, ih]
+
 end XlModel.FormulaRef
